@@ -88,9 +88,13 @@ class Ctx:
     def lint(self) -> None:
         """F-NAME sites in everything reachable from draw.  `unknown` verdicts are kept back: the label analysis may explain them."""
         fq = {f.fq for f in reachable_funcs(self.repo, [self.draw], byname=False)}
-        sites = [s for s in names.scan(self.repo) if s.fi.fq in fq]
-        self.unknown_sites = [s for s in sites if s.verdict == "unknown"]
-        add_sites(self.repo, self.res, "C17.R1", [s for s in sites if s.verdict != "unknown"])
+        # the public name-list helpers (get_parent_modules) are C14.R2's business, not part of the label mechanism
+        sites = [s for s in names.scan(self.repo) if s.fi.fq in fq and s.fi.name not in VOCABULARY]
+        # prefix tests and cuts are judged again by the label analysis, which reads the whole match condition (a raw prefix test next
+        # to a test of the following character is boundary-safe; the lint looks at one operation at a time)
+        held = lambda s: s.verdict == "unknown" or (s.verdict == "unsafe" and s.op in ("startswith", "slice-by-len", "removeprefix"))  # noqa: E731
+        self.unknown_sites = [s for s in sites if held(s)]
+        add_sites(self.repo, self.res, "C17.R1", [s for s in sites if not held(s)])
         # the number of string operations on names is not fixed (component-wise or ancestor-walking mechanisms have none):
         # the positive fixture shows on every run that the lint still bites
         self.res.add("C17.R1", "fixture::engine/fixtures/name_ops.py", True, names.fixture_selfcheck(), nontrivial=False)
@@ -99,7 +103,9 @@ class Ctx:
         for s in self.unknown_sites:
             key = self.repo.key(s.fi, stmt_of(s.node)) + f" [{s.op}: {norm(s.node, 70)}]"
             if id(s.node) in self.proved_sites:
-                self.res.add("C17.R1", key, True, "operand roles established by the label analysis: the prefix is '<aliased module>.' / the cut follows a boundary-safe match", where(s.fi, s.node), kind="flow")
+                self.res.add("C17.R1", key, True, "operand roles established by the label analysis: the match condition as a whole holds exactly for the aliased module and its sub modules, the cut follows that match", where(s.fi, s.node), kind="flow")
+            elif s.verdict == "unsafe":
+                self.res.add("C17.R1", key, False, s.why, where(s.fi, s.node), kind="flow")
             else:
                 self.res.undecide("C17.R1", key, s.why, where(s.fi, s.node))
 
